@@ -8,7 +8,8 @@ RULE = ("scripts over one transport on the simulated connection: 1-8 concurrent 
         "Model/Props.v (notifier exact, seqnos distinct, cancel after call, order kept) run on the abstracted event log. "
         "non-trivial = at least two senders overlap at the hand-off, or a send is cancelled / refused / fails")
 TRUSTED = ["the abstraction of the harness event log into Model/Events.v events (ocaml/abstract.ml)",
-           "Go channel semantics as encoded in Model/Writer.v (unbuffered rendezvous, select as one label per ready arm)"]
+           "Go channel semantics as encoded in Model/Writer.v (unbuffered rendezvous, select as one label per ready arm)",
+           "GoLite (C13_source_*): the generic statement translator in go/gen prints what it walked; SeqNumber is a 64-bit two's complement integer (go/types sizes for gc/amd64); the mutex is a pair of counters and one call runs alone"]
 ASSUMPTIONS = ["the simulated connection records a Write event at the instant Write is called by the writer goroutine"]
 
 
